@@ -78,6 +78,12 @@ CHECKS = [
               "unchanged by dumping/loading, look-alike (nested vs flat) annotations are loaded one after the other, and pickle/cloudpickle payloads are "
               "re-evaluated in a fresh interpreter.",
          note="probe set is finite (9 dtypes x 9 shapes + duck + jax arrays + non-arrays); user categories from the importable module vf/usercats.py"),
+    dict(property_id="C15", level="exploration", design_ref="DESIGN.md §5 C15",
+         technique="laws as equalities of acceptance vectors: exhaustive enumeration of the 34x34 category pairs and of the scalar-type table, Hypothesis for spec pairs / union / TypeVar forms; dtype side from the documented table, shape side metamorphic",
+         text="Nesting (two and three levels), union/X|Y unpacking, TypeVar bound/constraints/plain, the Python-scalar ladder and the Scalar/ScalarLike/"
+              "PRNGKeyArray aliases are each compared, over a probe set of arrays/scalars/non-arrays in two contexts, with the side of the law the "
+              "documentation states; building errors must be exactly ValueError where the law says so.",
+         note="trusted: vf/models/dtypes.py (intersection, scalar kinds); precision classes with Python scalars: totality only"),
 ]
 _pending = "check not built yet in this round (will be claimed once its machinery is committed)"
 NOT_APPLICABLE = [dict(property_id=f"C{i:02d}", reason=_pending) for i in range(1, 21)
